@@ -245,7 +245,14 @@ class MersenneTwister(StreamInterface):
         int
             a value between lo and hi (both inclusive)
         """
-        return lo + math.floor((hi - lo + 1) * self._random.random())
+        width = hi - lo + 1
+        u: float = self._random.random()
+        try:
+            return lo + math.floor(width * u)
+        except OverflowError:
+            # the width does not fit in a float: scale the 53 random bits
+            # of u with integer arithmetic
+            return lo + ((width * int(u * 9007199254740992.0)) >> 53)
     
     def seed(self) -> int:
         """
